@@ -177,6 +177,61 @@ def fn_layouts(items):
     return {'n': n, 'nt': nt, 'viol': viol}
 
 
+def fn_layouts_torch(items):
+    """item = [N, gi]: torchclifford rotate_by / transform_by (unmasked and through every 1- and 2-qubit mask) on
+    operand lists whose tensors are non-contiguous views: step slices of a PauliList, transposed storage, a
+    column window of a wider tensor.  Result must equal the reference on the selected rows."""
+    m = lib.torch_mods()
+    torch = m['torch']
+    n = nt = 0
+    viol = []
+    for N, gi in items:
+        Gs, Ps = group_arrays(N)
+        L = len(Gs)
+        masks = [None] + [c for k in (1, 2) if k < N for c in itertools.combinations(range(N), k)]
+        for qs in masks:
+            nn = N if qs is None else len(qs)
+            g = ref.all_g(nn)[gi % (4 ** nn)]
+            if not g.any():
+                g = ref.all_g(nn)[1]
+            mb = None
+            if qs is not None:
+                mb = np.zeros(N, dtype=bool)
+                mb[list(qs)] = True
+            big = g if qs is None else embed_gen(g, mb, N)
+            for p in (0, 2):
+                eg, ep, a = ref_rotate(big, p, Gs, Ps)
+                gen = lib.tP(g, p)
+                M = m['tst'].clifford_rotation_map(lib.tP(g, p))
+
+                def layouts():
+                    base = lib.tPL(Gs, Ps)
+                    yield 'slice[::2]', base[slice(None, None, 2)], np.arange(L)[::2]
+                    base = lib.tPL(Gs, Ps)
+                    yield 'slice[1::3]', base[slice(1, None, 3)], np.arange(L)[1::3]
+                    t = lib.tT(np.ascontiguousarray(Gs.T)).T            # transposed storage
+                    yield 'transposed', m['tpa'].PauliList(t, lib.tT(Ps)), np.arange(L)
+                    w = lib.tT(np.concatenate([Gs, np.ones((L, 2))], axis=1))[:, :2 * N]   # column window
+                    yield 'column-window', m['tpa'].PauliList(w, lib.tT(Ps)), np.arange(L)
+                for opname in ('rotate_by', 'transform_by'):
+                    for lname, obj, rows in layouts():
+                        try:
+                            if opname == 'rotate_by':
+                                obj.rotate_by(gen) if mb is None else obj.rotate_by(gen, mask=mb.copy())
+                            else:
+                                obj.transform_by(M) if mb is None else obj.transform_by(M, mask=torch.tensor(mb.copy()))
+                        except Exception as e:
+                            viol.append(V('C02/layout/torch/%s/%s/raises-%s' % (opname, lname, type(e).__name__), [N, gi], 'torch %s on a %s list (mask %s) raised %s: %s' % (opname, lname, qs, type(e).__name__, e)))
+                            continue
+                        og, op_ = lib.t2n(obj.gs), lib.t2n(obj.ps) % 4
+                        n += len(rows)
+                        nt += int(a[rows].sum())
+                        if og.shape != eg[rows].shape or (og != eg[rows]).any() or (op_ != ep[rows]).any():
+                            viol.append(V('C02/layout/torch/%s/%s/%s' % (opname, lname, 'unmasked' if mb is None else 'masked'), [N, gi],
+                                          'torch %s of a %s list by %s (mask %s) differs from U^dag P U on the selected rows' % (opname, lname, ref.g_to_str(g, p), qs)))
+    return {'n': n, 'nt': nt, 'viol': viol}
+
+
 def fn_mask(items):
     """item = [N, n, mi, pkg]: every generator of n qubits (both signs) through the mi-th mask of
     size n on N qubits; operands = whole N-qubit group.  Untouched columns bit-identical."""
@@ -351,6 +406,9 @@ def legs(tier):
     tN = (1, 2, 3)
     out.append(Leg('torch_operators', fn_ops, [[N, gi, 'torch'] for N in tN for gi in range(4 ** N)], chunk=2,
                    bound='torchclifford N in %s: all generators x whole group' % (tN,)))
-    out.append(Leg('torch_masks', fn_mask, [[2, 1, 0, 'torch'], [2, 1, 1, 'torch'], [3, 1, 1, 'torch'], [3, 2, 1, 'torch'], [3, 2, 0, 'torch']], chunk=1,
-                   bound='torchclifford: masks of N=2,3'))
+    tm = [[N, nn, mi, 'torch'] for N in (2, 3, 4) for nn in (1, 2, 3) if nn < N for mi in range(len(list(itertools.combinations(range(N), nn)))) if N < 4 or nn == 2 or tier != 'quick']
+    out.append(Leg('torch_layouts', fn_layouts_torch, [[N, gi] for N in (2, 3) for gi in range(1, 4 ** N, 3 if N == 2 else 13)], chunk=1,
+                   bound='torchclifford: rotate_by / transform_by, unmasked and through every 1- and 2-qubit mask, on step-sliced, transposed and column-window operand tensors (N=2,3; generators on a stride)'))
+    out.append(Leg('torch_masks', fn_mask, tm, chunk=1,
+                   bound='torchclifford: every mask of size n<N for N=2,3 and every 2-qubit mask of N=4 (thorough: every mask of N=4) x all generators of n qubits x whole N-qubit group'))
     return out
